@@ -39,7 +39,10 @@ def code_schema(permuted=False):
         Field("e", Int, args=[Argument("c", color, default_value=1), Argument("cs", ListType(color), default_value=[1, "blue"]),
                               Argument("i", inp, default_value={"f": 1, "g": "s", "c": (0, 255, 0), "again": [], "fl": 1.5, "b": True}), Argument("n", Int, default_value=None),
                               Argument("id", ID, default_value="5"), Argument("ids", ID, default_value="abc"),
-                              Argument("big", Float, default_value=1e21), Argument("s", String, default_value='q"\\\n')], description="field e"),
+                              Argument("big", Float, default_value=1e21), Argument("s", String, default_value='q"\\\n'),
+                              # (fully coerced) default dicts whose keys come in ANOTHER order than the fields are declared
+                              Argument("j", inp, default_value={"b": False, "fl": 1.5, "again": [], "c": "blue", "g": "s", "f": 2}),
+                              Argument("js", ListType(inp), default_value=[{"g": "x", "f": 3, "c": 1, "b": True, "fl": 2.5, "again": []}])], description="field e"),
         Field("old", String, deprecation_reason="gone"), Field("c", color),
     ])
     return Schema(q)
